@@ -102,6 +102,27 @@ def expand(ob, extra_terms=(), relevant=False):
     return hyps, goal
 
 
+def expand_native(ob):
+    """hypotheses with the lazily instantiated universal facts turned into solver-level quantifiers (E-matching / MBQI decide
+    the instances); the goal is skolemised. Only an 'unsat' answer is used."""
+    hyps = []
+    nq = 0
+    for p in ob.pc + list(ob.hyps):
+        if isinstance(p, QForall):
+            vs = [z3.Int('q!%d!%d' % (nq, j)) for j in range(p.arity)]
+            nq += 1
+            body = p.fn(*vs)
+            if z3.is_true(body): continue
+            hyps.append(z3.ForAll(vs, body))
+        else:
+            hyps.append(p)
+    goal = ob.goal
+    if isinstance(goal, QForall):
+        ks = [z3.Int('sk!%d' % next(_skolem)) for _ in range(goal.arity)]
+        goal = goal.fn(*ks)
+    return hyps, goal, nq
+
+
 _IMUL = None; _RMUL = None; _RDIV = None
 
 
